@@ -1,4 +1,5 @@
 """Native replays for C15 (real code, fault injection by monkeypatching the foreign calls only)."""
+import itertools
 import sys
 import tempfile
 import types
@@ -84,6 +85,37 @@ def replay_dynamic_import(w, obligation, expects):
                     sys.path = old
             finally:
                 importer.import_module = real_import
+    # real imports of code that tampers with sys.path at import time: in the top-level package, in a sub-module imported while the package is
+    # already in sys.modules, succeeding / raising / exiting
+    import tempfile
+    import textwrap
+    from pathlib import Path
+    for where, ending in itertools.product(("package", "submodule", "second submodule"), ("ok", "raise RuntimeError('x')", "raise SystemExit(3)")):
+        with tempfile.TemporaryDirectory() as tmp:
+            pkg = f"c15pkg_{abs(hash((where, ending))) % 10 ** 6}"
+            d = Path(tmp) / pkg
+            d.mkdir()
+            tamper = "import sys\nsys.path = ['/c15/left/behind'] + sys.path\n" + ("" if ending == "ok" else ending + "\n")
+            (d / "__init__.py").write_text(tamper if where == "package" else "")
+            (d / "sub.py").write_text(tamper if where == "submodule" else "x = 1\n")
+            (d / "sub2.py").write_text(tamper if where == "second submodule" else "y = 1\n")
+            old, old_value = sys.path, list(sys.path)
+            try:
+                for target in (pkg, pkg + ".sub", pkg + ".sub2"):
+                    try:
+                        importer.dynamic_import(target, [tmp])
+                    except ImportError:
+                        pass
+                    except BaseException as e:  # noqa: BLE001
+                        problems.append(f"{type(e).__name__} escaped dynamic_import({target}) ({where} tampers, {ending})")
+                    if sys.path is not old or sys.path != old_value:
+                        problems.append(f"sys.path not left as it was after importing {target.replace(pkg, 'pkg')} (the {where} rebinds sys.path at import time, then: {ending})")
+                        sys.path = old
+                        sys.path[:] = old_value
+                        break
+            finally:
+                for k in [k for k in sys.modules if k == pkg or k.startswith(pkg + ".")]:
+                    del sys.modules[k]
     return {"reproduced": bool(problems), "detail": "; ".join(problems[:4]) or "only ImportError escapes; sys.path restored",
             "signature": "dynamic_import:" + (problems[0] if problems else "ok")}
 
